@@ -2,6 +2,7 @@
 import MutagenModel.Model.Utf8
 import MutagenModel.Model.Vorbis
 import MutagenModel.Model.Ape
+import MutagenModel.Model.TagOrder
 import Driver.Util
 namespace Driver
 open Mutagen
@@ -27,6 +28,13 @@ def parseItems (s : String) : List Ape.Item :=
 def showItems (l : List Ape.Item) : String :=
   if l.isEmpty then "_" else ",".intercalate (l.map fun i => s!"{hexField i.key}:{i.kind}:{hexField i.value}")
 
+def parseFrames (s : String) : List TagOrder.Frame :=
+  (splitList s).filterMap fun t =>
+    match t.splitOn ":" with
+    | [p, d, k] => some { prio := p.toNat?.getD 0, data := parseHexField d,
+                          hashKey := if k == "-" then [] else (k.splitOn ".").filterMap String.toNat? }
+    | _ => none
+
 def tagcOp (a : Args) : String :=
   match a.str "op" with
   | "vcenc" => s!"ok v={hexField (Vorbis.encode (a.bytes "vendor") (parseKV (a.str "kv")) (a.nat "framing" 1 == 1))}"
@@ -41,6 +49,8 @@ def tagcOp (a : Args) : String :=
     match Ape.decodeTag (a.bytes "data") with
     | some items => s!"ok items={showItems items}"
     | none => "err value"
+  | "apebody" => s!"ok v={hexField (TagOrder.apeBody (parseItems (a.str "items")))}"
+  | "id3body" => s!"ok v={hexField (TagOrder.id3Body (parseFrames (a.str "frames")))}"
   | "utf8enc" => s!"ok v={hexField (Utf8.encode (natList (a.str "cps" "-")))}"
   | "utf8dec" =>
     match Utf8.decode (a.bytes "data") with
